@@ -246,7 +246,7 @@ type tierCfg struct {
 }
 
 func tierFor(prop, tier string) tierCfg {
-	quick := map[string]uint64{"C05": 4000, "C14": 6000, "C18": 3000, "C19": 6000}
+	quick := map[string]uint64{"C05": 8000, "C14": 6000, "C18": 3000, "C19": 6000}
 	thorough := map[string]uint64{"C05": 120000, "C14": 300000, "C18": 80000, "C19": 300000}
 	c := tierCfg{workers: 16, timeout: 10 * time.Minute, detailEvery: 997}
 	if tier == "thorough" {
